@@ -217,7 +217,13 @@ func init() {
 		big := strings.Repeat("lorem <ipsum> \"dolor\" & sit amet/", 200)
 		scalePre := append(append([]c19Pre(nil), userPre...), c19Pre{kind: "set", name: "big", val: &big, ins: inspector.StaticInspector{}},
 			c19Pre{kind: "set", name: "lst", val: []string{"a", "b", "c", "d"}, ins: inspector.StringsInspector{}})
+		// a value with every class of byte an escaper treats differently: control bytes with and without a short escape,
+		// DEL, quotes, markup, slash and backslash, 2- / 3- / 4-byte runes, the line separators, invalid UTF-8
+		odd := "\x00\x01\x07\x08\t\n\x0b\x0c\r\x1b\x1f \"'`<>&/\\=+%;:@#?\x7f\u00e9\u0416\u2028\u2029\u20ac\U0001F600\xff\xc3(\xe2\x82"
+		scalePre = append(scalePre, c19Pre{kind: "set", name: "odd", val: &odd, ins: inspector.StaticInspector{}})
 		scale := map[string][]string{
+			"scale-escape-classes": {"main", `{%j= odd %}{%q= odd %}{%h= odd %}{%a= odd %}{%u= odd %}{%l= odd %}{%J= odd %}{%c= odd %}{%jj= odd %}{%= odd|jsonEscape|htmlEscape %}` +
+				`{% jsonquote %}{%= odd %}{% endjsonquote %}{% htmlescape %}{%= odd %}{% endhtmlescape %}{% urlencode %}{%= odd %}{% endurlencode %}{% for _, v := range lst sep , %}{%q= odd %}{% endfor %}`},
 			"scale-include":   {"sub", `{% for i:=0; i<400; i++ %}<li>item {%= i %} of the list</li>{% endfor %}`, "main", `head{% include sub %}mid{% include sub %}tail`},
 			"scale-include-2": {"sub2", `{%= big %}{%h= big %}`, "sub1", `[{% include sub2 %}]`, "main", `{% for i:=0; i<3; i++ %}{% include sub1 %}{% endfor %}`},
 			"scale-regions":   {"main", `{% htmlescape %}{%= big %}{% jsonquote %}{%= big %}{% endjsonquote %}{% endhtmlescape %}{% urlencode %}{%= big %}{% endurlencode %}`},
